@@ -189,8 +189,21 @@ def measurement(value=1.0, step=0, metric='m', extra=None):
   return m
 
 
+def owner_of(s):
+  """Study keys are 'id' (owner o) or 'owner@id'."""
+  return s.split('@', 1)[0] if '@' in s else 'o'
+
+
+def study_id(s):
+  return s.split('@', 1)[1] if '@' in s else s
+
+
+def owner_name(s):
+  return 'owners/%s' % owner_of(s)
+
+
 def study_name(s='s'):
-  return '%s/studies/%s' % (OWNER, s)
+  return 'owners/%s/studies/%s' % (owner_of(s), study_id(s))
 
 
 def trial_name(i, s='s'):
@@ -344,12 +357,14 @@ def canon_state(ds, studies, clients, max_trial, now, recycle):
   """Canonical form of everything the RPCs can observe. Trials sorted by id; list order is compared
   separately by C07 through ListTrials responses."""
   out = {}
-  try:
-    sts = ds.list_studies(OWNER)
-    owner = True
-  except custom_errors.NotFoundError:
-    sts, owner = [], False
-  out['owner'] = owner
+  sts, flags = [], []
+  for ow in sorted({owner_of(s) for s in studies} | {'o'}):
+    try:
+      sts += ds.list_studies('owners/' + ow)
+      flags.append((ow, True))
+    except custom_errors.NotFoundError:
+      flags.append((ow, False))
+  out['owner'] = flags[0][1] if len(flags) == 1 else tuple(flags)
   out['studies'] = tuple(sorted((freeze(study_view(s)) for s in sts), key=repr))
   present = {s.name for s in sts}
   tr, ops, es = [], [], []
@@ -365,7 +380,7 @@ def canon_state(ds, studies, clients, max_trial, now, recycle):
         lst = []
       ops.append((s, c, tuple(sorted((freeze(op_view(o)) for o in lst), key=repr))))
     for i in range(1, max_trial + 1):
-      n = resources.EarlyStoppingOperationResource('o', s, i).name
+      n = resources.EarlyStoppingOperationResource(owner_of(s), study_id(s), i).name
       try:
         o = ds.get_early_stopping_operation(n)
       except KeyError:
@@ -401,8 +416,8 @@ def err_class(e):
 def build_request(a):
   k = a[0]
   if k == 'CreateStudy':      # ('CreateStudy', study, algorithm)
-    return vs.CreateStudyRequest(parent=OWNER, study=study_pb2.Study(
-        display_name=a[1], study_spec=spec(a[2] if len(a) > 2 else 'SCRIPTED')))
+    return vs.CreateStudyRequest(parent=owner_name(a[1]), study=study_pb2.Study(
+        display_name=study_id(a[1]), study_spec=spec(a[2] if len(a) > 2 else 'SCRIPTED')))
   if k == 'CreateStudyNamed':  # request carrying study.name (documented invalid)
     return vs.CreateStudyRequest(parent=OWNER, study=study_pb2.Study(
         name=study_name(a[1]), display_name=a[1], study_spec=spec()))
@@ -420,7 +435,7 @@ def build_request(a):
     return vs.SuggestTrialsRequest(parent=study_name(a[1]), client_id=a[2], suggestion_count=a[3])
   if k == 'GetOperation':     # ('GetOperation', study, client, number)
     return operations_pb2.GetOperationRequest(
-        name=resources.SuggestionOperationResource('o', a[1], a[2], a[3]).name)
+        name=resources.SuggestionOperationResource(owner_of(a[1]), study_id(a[1]), a[2], a[3]).name)
   if k == 'CreateTrial':      # ('CreateTrial', study, kind, x) kind in requested|succeeded|infeasible|active
     t = study_pb2.Trial()
     t.parameters.add(parameter_id='x').value.number_value = a[3]
